@@ -55,13 +55,14 @@ IsConstant(t) == t.k = "scalar" /\ t.val # VNil
 \* how the property wants a field covered (reading rule DESIGN 6.0):
 \*   "constant"  inline constant, or required non-nullable reference to a constant: constructor constant
 \*   "own"       constant reference: the type's own constructor sets it, nothing in the builder
-\*   "free"      optional reference to a constant: either an option or a constructor constant
-\*   "option"    everything else: exactly one option
+\*   "free"      optional (not required) reference to a constant: either an option or a constructor constant
+\*   "option"    everything else: exactly one option - also a required but NULLABLE reference to a constant,
+\*               whose value (null or the constant) the schema does not fix
 FieldMode(S, f) ==
   CASE IsConstant(f.type)   -> "constant"
     [] f.type.k = "constref" -> "own"
     [] f.type.k = "ref" /\ IsConstant(Resolve(S, f.type)) ->
-         IF f.required /\ ~f.type.nullable THEN "constant" ELSE "free"
+         IF ~f.required THEN "free" ELSE IF f.type.nullable THEN "option" ELSE "constant"
     [] OTHER -> "option"
 FixedValue(S, f) == IF f.type.k = "ref" THEN Resolve(S, f.type).val ELSE f.type.val
 
@@ -523,10 +524,15 @@ OmitV(S, pre, r, post) ==
   IF r.kind = "b"
   THEN (IF \E b \in Range(post) : BSel(S, r.sel, b) THEN V("OmitRemoves", "selected-builder-remains") ELSE {})
        \cup (IF ~SubBag(post, pre) THEN V("OmitRemoves", "new-or-changed-builder") ELSE {})
-  ELSE UNION {LET b == pre[i] IN
-              UNION {(IF \E o \in Range(post[j].options) : OSel(r.sel, post[j], o) THEN V("OmitRemoves", "selected-option-remains") ELSE {})
-                     \cup (IF ~SubBag(post[j].options, b.options) THEN V("OmitRemoves", "new-or-changed-option") ELSE {})
-                     : j \in Counterparts(b, post)} : i \in DOMAIN pre}
+  ELSE \* several builders can be equal at builder level (two copies under one name): one matching counterpart is enough
+       UNION {LET b == pre[i]
+                  cps == Counterparts(b, post)
+                  clean(j) == ~\E o \in Range(post[j].options) : OSel(r.sel, post[j], o)
+              IN IF cps = {} THEN {}
+                 ELSE IF \E j \in cps : clean(j) /\ SubBag(post[j].options, b.options) THEN {}
+                 ELSE IF \A j \in cps : ~clean(j) THEN V("OmitRemoves", "selected-option-remains")
+                 ELSE V("OmitRemoves", "new-or-changed-option")
+              : i \in DOMAIN pre}
 
 \* rename only renames
 RenameV(S, pre, r, post) ==
@@ -542,13 +548,18 @@ RenameV(S, pre, r, post) ==
               IN IF \E j \in Counterparts(b, post) : BagEq(want, post[j].options) THEN {}
                  ELSE IF Counterparts(b, post) = {} THEN {}        \* reported by UnselectedUnchanged
                  ELSE V("RenameOnlyRenames", "option-differs-beyond-name") : i \in DOMAIN pre}
-  ELSE \* rename_arguments
+  ELSE \* rename_arguments: a SIMULTANEOUS substitution of the argument names, in the declaration and in every mention
        UNION {LET b == pre[i] IN
-              UNION {LET o == b.options[x] IN
-                     IF ~OSel(r.sel, b, o) \/ Len(r.as) # Len(o.args) \/ Counterparts(b, post) = {} THEN {}
-                     ELSE IF \E j \in Counterparts(b, post) : \E o2 \in Range(post[j].options) :
-                               BlankArgNames(o2) = BlankArgNames(o) /\ [k \in DOMAIN o2.args |-> o2.args[k].name] = r.as
-                          THEN {} ELSE V("RenameOnlyRenames", "arguments-differ-beyond-names")
+              UNION {LET o == b.options[x]
+                         new(n) == IF \E k \in DOMAIN o.args : o.args[k].name = n
+                                   THEN r.as[CHOOSE k \in DOMAIN o.args : o.args[k].name = n /\ \A j \in 1..(k - 1) : o.args[j].name # n] ELSE n
+                         want == RenOption(new, o)
+                     IN IF ~OSel(r.sel, b, o) \/ Len(r.as) # Len(o.args) \/ Counterparts(b, post) = {} THEN {}
+                        ELSE IF \E j \in Counterparts(b, post) : want \in Range(post[j].options) THEN {}
+                        ELSE IF \E j \in Counterparts(b, post) : \E o2 \in Range(post[j].options) :
+                                  BlankArgNames(o2) = BlankArgNames(o) /\ [k \in DOMAIN o2.args |-> o2.args[k].name] = r.as
+                             THEN V("RenameOnlyRenames", "argument-references-rewired")
+                        ELSE V("RenameOnlyRenames", "arguments-differ-beyond-names")
                      : x \in DOMAIN b.options} : i \in DOMAIN pre}
 
 \* duplicate yields an identical copy under the new name (defaults and factories included)
